@@ -361,3 +361,22 @@ V2("C17", "index-with-place-after-imgset", [(BLD, "            folder.children =
                                              (FTIL, "                self.builder.place.foreground_image_set = item\n", "                self.builder.place.foreground_image_set = item\n                break\n")], "C17.R5")
 V("C17", "P-loader-break-after-place", FTIL, "                self.builder.imgset = item.foreground_image_set\n", "                self.builder.imgset = item.foreground_image_set\n                break\n", "HOLDS", note="each written list has one child")
 V("C07", "bounds-core-transform", SAMP, "            refined_lon = self._wcs.all_pix2world(refined_pix, 1)[:, 0]", "            refined_lon = self._wcs.wcs_pix2world(refined_pix, 1)[:, 0]", "C07.R10", note="the repaired F13, one site")
+
+# ---------------------------------------------------------------- C06.R8 (command-line projection dispatch)
+CLIPY = "toasty/cli.py"
+V("C06", "cli-zeroright-not-planet", CLIPY, "        sampler = plate_carree_zeroright_sampler(img.asarray())\n        is_planet = True", "        sampler = plate_carree_zeroright_sampler(img.asarray())", "C06.R8")
+V("C06", "cli-galactic-wrong-sampler", CLIPY, "        from .samplers import plate_carree_galactic_sampler\n\n        sampler = plate_carree_galactic_sampler(img.asarray())", "        from .samplers import plate_carree_sampler\n\n        sampler = plate_carree_sampler(img.asarray())", "C06.R8")
+V("C06", "cli-panorama-as-planet", CLIPY, "        sampler = plate_carree_sampler(img.asarray())\n        is_pano = True", "        sampler = plate_carree_sampler(img.asarray())\n        is_planet = True", "C06.R8")
+V("C06", "cli-unknown-projection-default", CLIPY, "        die(\n            \"the image projection type {!r} is not recognized\".format(\n                settings.projection\n            )\n        )\n\n    builder = Builder(pio)\n\n    # Do the thumbnail first", "        from .samplers import plate_carree_sampler\n\n        sampler = plate_carree_sampler(img.asarray())\n\n    builder = Builder(pio)\n\n    # Do the thumbnail first", "C06.R8")
+V("C06", "cli-depth-plus-one", CLIPY, "    builder.toast_base(\n        sampler,\n        settings.depth,\n        is_planet=is_planet,", "    builder.toast_base(\n        sampler,\n        settings.depth + 1,\n        is_planet=is_planet,", "C06.R8")
+V("C06", "P-cli-projection-table", CLIPY,
+  "    if settings.projection == \"plate-carree\":\n        from .samplers import plate_carree_sampler\n\n        sampler = plate_carree_sampler(img.asarray())\n    elif settings.projection == \"plate-carree-galactic\":",
+  "    if settings.projection in (\"plate-carree\",):\n        from .samplers import plate_carree_sampler\n\n        data = img.asarray()\n        sampler = plate_carree_sampler(data)\n    elif \"plate-carree-galactic\" == settings.projection:", "HOLDS")
+V("C06", "P-cli-flags-keywords", CLIPY, "    builder.toast_base(\n        sampler,\n        settings.depth,\n        is_planet=is_planet,\n        is_pano=is_pano,", "    builder.toast_base(\n        sampler=sampler,\n        depth=settings.depth,\n        is_pano=is_pano,\n        is_planet=is_planet,", "HOLDS")
+
+# ---------------------------------------------------------------- C06.R9 (Builder.toast_base)
+V("C06", "toastbase-coordsys-swapped", BLD, "            ToastCoordinateSystem.PLANETARY\n            if is_planet\n            else ToastCoordinateSystem.ASTRONOMICAL", "            ToastCoordinateSystem.ASTRONOMICAL\n            if is_planet\n            else ToastCoordinateSystem.PLANETARY", "C06.R9")
+V("C06", "toastbase-explicit-coordsys-ignored", BLD, "        coordsys = kwargs.pop(\"coordsys\", coordsys)", "        kwargs.pop(\"coordsys\", None)", "C06.R9")
+V("C06", "toastbase-planet-published-as-sky", BLD, "        if is_planet:\n            self.imgset.data_set_type = DataSetType.PLANET\n        elif is_pano:", "        if is_pano:", "C06.R9")
+V("C06", "toastbase-filtered-no-coordsys", BLD, "                pio=self.pio, sampler=sampler, depth=depth, coordsys=coordsys, **kwargs", "                pio=self.pio, sampler=sampler, depth=depth, **kwargs", "C06.R9")
+V("C06", "P-toastbase-guard-style", BLD, "        coordsys = (\n            ToastCoordinateSystem.PLANETARY\n            if is_planet\n            else ToastCoordinateSystem.ASTRONOMICAL\n        )\n        coordsys = kwargs.pop(\"coordsys\", coordsys)", "        if is_planet:\n            default_cs = ToastCoordinateSystem.PLANETARY\n        else:\n            default_cs = ToastCoordinateSystem.ASTRONOMICAL\n        coordsys = kwargs.pop(\"coordsys\", default_cs)", "HOLDS")
